@@ -17,7 +17,7 @@ import (
 )
 
 // C23: scriggo.Files as an io/fs file system.
-// Case {id, files:[{n,d}], name, ops:[{op,n}]}: build the map, Open(name), perform the operations on the
+// Case {id, files:[{n,d}], name, ops:[{op,n}] | seqs:[[code]]}: build the map, Open(name), perform the operations on the
 // handle, log every result. The driver judges nothing (Trace_FilesFS.tla does).
 //
 // -fstest switches to the oracle guard used ONLY on the violation path: testing/fstest.TestFS on the
@@ -38,6 +38,28 @@ type c23Case struct {
 	Files []fileRec `json:"files"`
 	Name  []int     `json:"name"`
 	Ops   []opRec   `json:"ops"`
+	// Seqs: several operation sequences, each run on a fresh handle (operations coded as integers:
+	// 0 stat, 1 close, 10+n read(n), 20+n readdir(n)); observation id = id*4096 + index.
+	Seqs [][]int `json:"seqs"`
+}
+
+func decodeOps(codes []int) []opRec {
+	ops := make([]opRec, len(codes))
+	for i, c := range codes {
+		switch {
+		case c == 0:
+			ops[i] = opRec{"stat", 0}
+		case c == 1:
+			ops[i] = opRec{"close", 0}
+		case c >= 10 && c < 19:
+			ops[i] = opRec{"read", c - 10}
+		case c >= 19 && c < 40:
+			ops[i] = opRec{"readdir", c - 20}
+		default:
+			ops[i] = opRec{"unknown", c}
+		}
+	}
+	return ops
 }
 
 var flagFstest = flag.Bool("fstest", false, "oracle guard: run testing/fstest.TestFS on each case's tree")
@@ -127,8 +149,18 @@ func statOfPath(fsys fs.FS, q string) (out map[string]any) {
 	return
 }
 
+// result: every record has op, n, err; stat adds info, read adds data, readdir adds ents.
 func result(op string, n int, err string) map[string]any {
-	return map[string]any{"op": op, "n": n, "err": err, "data": []int{}, "ents": []any{}, "info": noInfo()}
+	r := map[string]any{"op": op, "n": n, "err": err}
+	switch op {
+	case "stat":
+		r["info"] = noInfo()
+	case "read":
+		r["data"] = []int{}
+	case "readdir":
+		r["ents"] = []any{}
+	}
+	return r
 }
 
 func step(fsys fs.FS, name string, f fs.File, op opRec) (res map[string]any) {
@@ -190,7 +222,7 @@ func step(fsys fs.FS, name string, f fs.File, op opRec) (res map[string]any) {
 	return
 }
 
-func runCase(c *c23Case) map[string]any {
+func runCase(c *c23Case, id int, opsToRun []opRec) map[string]any {
 	fsys := scriggo.Files{}
 	for _, f := range c.Files {
 		fsys[string(drv.BytesOf(f.N))] = drv.BytesOf(f.D)
@@ -200,11 +232,8 @@ func runCase(c *c23Case) map[string]any {
 	for i, f := range c.Files {
 		files[i] = map[string]any{"n": append([]int{}, f.N...), "d": append([]int{}, f.D...)}
 	}
-	ops := make([]any, len(c.Ops))
-	for i, o := range c.Ops {
-		ops[i] = map[string]any{"op": o.Op, "n": o.N}
-	}
-	obs := map[string]any{"id": c.ID, "files": files, "name": append([]int{}, c.Name...), "ops": ops}
+	// the operations are echoed inside res (op, n); when Open fails none is performed
+	obs := map[string]any{"id": id, "files": files, "name": append([]int{}, c.Name...)}
 	open := map[string]any{"err": "nil", "perr": 0, "rdf": 0}
 	var f fs.File
 	func() {
@@ -233,7 +262,7 @@ func runCase(c *c23Case) map[string]any {
 	obs["open"] = open
 	res := []any{}
 	if f != nil {
-		for _, op := range c.Ops {
+		for _, op := range opsToRun {
 			res = append(res, step(fsys, name, f, op))
 		}
 	}
@@ -342,7 +371,7 @@ func extra(seed int64, n int) []json.RawMessage {
 			}
 			ops = append(ops, o)
 		}
-		m, _ := json.Marshal(map[string]any{"id": 1000000 + i, "files": files, "name": drv.IntsS(name), "ops": ops})
+		m, _ := json.Marshal(map[string]any{"id": 1000000000 + i, "files": files, "name": drv.IntsS(name), "ops": ops})
 		out = append(out, m)
 	}
 	return out
@@ -356,7 +385,14 @@ func main() {
 			if *flagFstest {
 				return []any{runFstest(&c)}
 			}
-			return []any{runCase(&c)}
+			if c.Seqs != nil {
+				out := make([]any, len(c.Seqs))
+				for k, codes := range c.Seqs {
+					out[k] = runCase(&c, c.ID*4096+k, decodeOps(codes))
+				}
+				return out
+			}
+			return []any{runCase(&c, c.ID, c.Ops)}
 		},
 		Extra: extra,
 	})
